@@ -165,6 +165,7 @@ type xl struct {
 	typeDefs []string // "abbrev Coin := U64"
 	typeKind map[string]kind
 	skipped  map[string]string
+	failed   map[string]string // functions that are outside the subset: name -> reason (file:line: …)
 }
 
 // xlateError is how the translator gives up: translateSource turns it into an error, main into exit status 1
@@ -338,6 +339,10 @@ func (f *ft) expr(e ast.Expr, en *env, want kind) exprRes {
 		return f.constant(e, tv.Value, k)
 	}
 	switch v := e.(type) {
+	case *ast.BasicLit: // only reached for nodes synthesised by the translator (x++ → x + 1)
+		if want != kNone {
+			return f.constant(e, constant.MakeFromLiteral(v.Value, v.Kind, 0), want)
+		}
 	case *ast.ParenExpr:
 		return f.expr(v.X, en, want)
 	case *ast.Ident:
@@ -422,6 +427,17 @@ func (f *ft) call(c *ast.CallExpr, en *env) exprRes {
 		}
 		x.fail(c.Pos(), "conversion %s (from %s)", x.text(c), a.k)
 	}
+	// call of a translated helper WITHOUT error result (single value): its result is bound before the expression
+	if callee, cc := f.calleeOf(c); callee != nil {
+		if callee.hasErr || len(callee.results) != 1 {
+			x.fail(c.Pos(), "call %s in expression position (a function with an error or several results)", x.text(c))
+		}
+		gs, term := f.callTerm(callee, cc, en)
+		f.fresh++
+		name := fmt.Sprintf("h_%d", f.fresh)
+		gs = append(gs, rawPrelude+"Res.andThen ("+term+") fun "+name+" =>")
+		return exprRes{t: name, k: callee.results[0].k, guards: gs}
+	}
 	sel, ok := c.Fun.(*ast.SelectorExpr)
 	if !ok {
 		x.fail(c.Pos(), "call %s in expression position (only conversions, math.IsInf, the decimal functions of the subset; calls of translated functions only as `v, err := f(..)` and `return f(..)`)", x.text(c))
@@ -460,6 +476,18 @@ func (f *ft) call(c *ast.CallExpr, en *env) exprRes {
 	if x.isPkg(sel.X, "math") {
 		x.fail(c.Pos(), "math function %s as a value", x.text(c))
 	}
+	if x.isPkg(sel.X, bitsPath) && len(c.Args) == 1 {
+		a := f.expr(c.Args[0], en, kU64)
+		if a.k == kU64 {
+			switch sel.Sel.Name {
+			case "Len64":
+				return exprRes{t: "(len64 " + a.t + ")", k: kInt, guards: a.guards}
+			case "LeadingZeros64":
+				return exprRes{t: "((64 : Int) - len64 " + a.t + ")", k: kInt, guards: a.guards}
+			}
+		}
+		x.fail(c.Pos(), "bits function %s", x.text(c))
+	}
 	// method of a decimal value
 	recv := f.expr(sel.X, en, kNone)
 	if recv.k == kDec {
@@ -475,6 +503,13 @@ func (f *ft) call(c *ast.CallExpr, en *env) exprRes {
 		case "IntPart":
 			if len(c.Args) == 0 {
 				return exprRes{t: "(Dec.intPart " + recv.t + ")", k: kI64, guards: recv.guards}
+			}
+		case "Cmp":
+			if len(c.Args) == 1 {
+				a := f.expr(c.Args[0], en, kDec)
+				if a.k == kDec {
+					return exprRes{t: "(Dec.cmp " + recv.t + " " + a.t + ")", k: kInt, guards: append(append([]string{}, recv.guards...), a.guards...)}
+				}
 			}
 		case "Shift":
 			if len(c.Args) == 1 {
@@ -554,6 +589,12 @@ func (f *ft) prop(e ast.Expr, en *env) (string, []string) {
 		}
 	case *ast.CallExpr:
 		if sel, ok := v.Fun.(*ast.SelectorExpr); ok {
+			if x.isPkg(sel.X, "math") && sel.Sel.Name == "IsNaN" && len(v.Args) == 1 {
+				a := f.expr(v.Args[0], en, kF64)
+				if a.k == kF64 {
+					return "F64.isNaN " + a.t + " = true", a.guards
+				}
+			}
 			if x.isPkg(sel.X, "math") && sel.Sel.Name == "IsInf" && len(v.Args) == 2 {
 				a := f.expr(v.Args[0], en, kF64)
 				s := f.expr(v.Args[1], en, kInt)
@@ -561,11 +602,23 @@ func (f *ft) prop(e ast.Expr, en *env) (string, []string) {
 					return "F64.isInf " + a.t + " " + s.t + " = true", append(append([]string{}, a.guards...), s.guards...)
 				}
 			}
-			if !x.isPkg(sel.X, "math") && !x.isPkg(sel.X, decimalPath) && sel.Sel.Name == "GreaterThan" && len(v.Args) == 1 {
+			if !x.isPkg(sel.X, "math") && !x.isPkg(sel.X, decimalPath) && !x.isPkg(sel.X, bitsPath) && len(v.Args) == 1 {
+				if rel, ok := map[string]string{"GreaterThan": "", "LessThan": "< 0", "GreaterThanOrEqual": "≥ 0", "LessThanOrEqual": "≤ 0", "Equal": "= 0"}[sel.Sel.Name]; ok {
+					r := f.expr(sel.X, en, kNone)
+					a := f.expr(v.Args[0], en, kDec)
+					if r.k == kDec && a.k == kDec {
+						g := append(append([]string{}, r.guards...), a.guards...)
+						if rel == "" {
+							return "Dec.greaterThan " + r.t + " " + a.t + " = true", g
+						}
+						return "(Dec.cmp " + r.t + " " + a.t + ") " + rel, g
+					}
+				}
+			}
+			if !x.isPkg(sel.X, "math") && !x.isPkg(sel.X, decimalPath) && !x.isPkg(sel.X, bitsPath) && len(v.Args) == 0 && sel.Sel.Name == "IsNegative" {
 				r := f.expr(sel.X, en, kNone)
-				a := f.expr(v.Args[0], en, kDec)
-				if r.k == kDec && a.k == kDec {
-					return "Dec.greaterThan " + r.t + " " + a.t + " = true", append(append([]string{}, r.guards...), a.guards...)
+				if r.k == kDec {
+					return "(Dec.sign " + r.t + ") < 0", r.guards
 				}
 			}
 		}
@@ -589,6 +642,9 @@ func (f *ft) mayPanic(e ast.Expr) bool {
 			if sel, ok := v.Fun.(*ast.SelectorExpr); ok && f.x.isPkg(sel.X, decimalPath) && sel.Sel.Name == "NewFromFloat" {
 				found = true
 			}
+			if callee, _ := f.calleeOf(v); callee != nil {
+				found = true
+			}
 		}
 		return true
 	})
@@ -597,9 +653,18 @@ func (f *ft) mayPanic(e ast.Expr) bool {
 
 func pad(n int) string { return strings.Repeat(" ", n) }
 
+// rawPrelude marks an entry of exprRes.guards that is a complete prefix line instead of a panic condition
+const rawPrelude = "\x00"
+
+const bitsPath = "math/bits"
+
 func guardLines(gs []string, ind int) string {
 	s := ""
 	for _, g := range gs {
+		if strings.HasPrefix(g, rawPrelude) { // a binding of a helper-call result: `Res.andThen (f a) fun h =>`
+			s += pad(ind) + g[len(rawPrelude):] + "\n"
+			continue
+		}
 		s += pad(ind) + "if " + g + " then .panic else\n"
 	}
 	return s
@@ -775,7 +840,109 @@ func (f *ft) stmts(list []ast.Stmt, en *env, ind int) string {
 		}
 		kF := func(i int) string { return f.stmts(append(append([]ast.Stmt{}, elseB...), rest...), en.clone(), i) }
 		return f.cond(v.Cond, en, ind, kT, kF)
+	case *ast.IncDecStmt: // x++ is x = x + 1
+		op := token.ADD
+		if v.Tok == token.DEC {
+			op = token.SUB
+		}
+		as := &ast.AssignStmt{Lhs: []ast.Expr{v.X}, TokPos: v.TokPos, Tok: token.ASSIGN,
+			Rhs: []ast.Expr{&ast.BinaryExpr{X: v.X, OpPos: v.TokPos, Op: op, Y: &ast.BasicLit{ValuePos: v.TokPos, Kind: token.INT, Value: "1"}}}}
+		return f.stmts(append([]ast.Stmt{as}, rest...), en, ind)
+	case *ast.DeclStmt: // var x T / var x T = e / var x = e
+		gd, ok := v.Decl.(*ast.GenDecl)
+		if !ok || gd.Tok != token.VAR {
+			x.fail(v.Pos(), "local declaration %s", x.text(v))
+		}
+		out := ""
+		for _, sp := range gd.Specs {
+			vs := sp.(*ast.ValueSpec)
+			if len(vs.Values) != 0 && len(vs.Values) != len(vs.Names) {
+				x.fail(vs.Pos(), "declaration %s", x.text(vs))
+			}
+			for i, nm := range vs.Names {
+				if len(vs.Values) == 0 {
+					k, _ := x.typeExpr(vs.Type)
+					if k == kErr {
+						en.errs[nm.Name] = errAbs{}
+						delete(en.vars, nm.Name)
+						continue
+					}
+					if k != kU64 && k != kI64 && k != kF64 {
+						x.fail(vs.Pos(), "local variable of type %s", k)
+					}
+					en.vars[nm.Name] = binding{lean: zeroLit(k), k: k, zero: true}
+					delete(en.errs, nm.Name)
+					continue
+				}
+				want := kNone
+				if vs.Type != nil {
+					want, _ = x.typeExpr(vs.Type)
+				}
+				r := f.expr(vs.Values[i], en, want)
+				if r.k == kBool || r.k == kErr || r.k == kNone || (want != kNone && want != r.k) {
+					x.fail(vs.Pos(), "declaration %s", x.text(vs))
+				}
+				out += guardLines(r.guards, ind) + pad(ind) + "let " + leanIdent(nm.Name) + " := " + r.t + "\n"
+				en.vars[nm.Name] = binding{lean: leanIdent(nm.Name), k: r.k, zero: r.zero}
+				delete(en.errs, nm.Name)
+			}
+		}
+		return out + f.stmts(rest, en, ind)
+	case *ast.SwitchStmt: // switch { case c: .. } and switch x { case v: .. } are if-chains (no fallthrough)
+		if v.Init != nil {
+			x.fail(v.Pos(), "switch statement with an init clause")
+		}
+		var clauses []*ast.CaseClause
+		var def *ast.CaseClause
+		for _, st := range v.Body.List {
+			cc := st.(*ast.CaseClause)
+			for _, b := range cc.Body {
+				if br, ok := b.(*ast.BranchStmt); ok {
+					x.fail(br.Pos(), "%s in a switch", br.Tok)
+				}
+			}
+			f.noShadow(cc.Body, en)
+			if cc.List == nil {
+				def = cc
+			} else {
+				clauses = append(clauses, cc)
+			}
+		}
+		var chain func(i int, ind int) string
+		chain = func(i int, ind int) string {
+			if i == len(clauses) {
+				var body []ast.Stmt
+				if def != nil {
+					body = def.Body
+				}
+				return f.stmts(append(append([]ast.Stmt{}, body...), rest...), en.clone(), ind)
+			}
+			cc := clauses[i]
+			var c ast.Expr
+			for _, e := range cc.List {
+				var one ast.Expr = e
+				if v.Tag != nil {
+					one = &ast.BinaryExpr{X: v.Tag, OpPos: e.Pos(), Op: token.EQL, Y: e}
+				}
+				if c == nil {
+					c = one
+				} else {
+					c = &ast.BinaryExpr{X: c, OpPos: e.Pos(), Op: token.LOR, Y: one}
+				}
+			}
+			kT := func(j int) string {
+				return f.stmts(append(append([]ast.Stmt{}, cc.Body...), rest...), en.clone(), j)
+			}
+			return f.cond(c, en, ind, kT, func(j int) string { return chain(i+1, j) })
+		}
+		return chain(0, ind)
 	case *ast.AssignStmt:
+		if op, ok := map[token.Token]token.Token{token.ADD_ASSIGN: token.ADD, token.SUB_ASSIGN: token.SUB, token.MUL_ASSIGN: token.MUL,
+			token.QUO_ASSIGN: token.QUO, token.REM_ASSIGN: token.REM}[v.Tok]; ok && len(v.Lhs) == 1 && len(v.Rhs) == 1 { // x op= e is x = x op e
+			as := &ast.AssignStmt{Lhs: v.Lhs, TokPos: v.TokPos, Tok: token.ASSIGN,
+				Rhs: []ast.Expr{&ast.BinaryExpr{X: v.Lhs[0], OpPos: v.TokPos, Op: op, Y: &ast.ParenExpr{X: v.Rhs[0]}}}}
+			return f.stmts(append([]ast.Stmt{as}, rest...), en, ind)
+		}
 		if v.Tok != token.DEFINE && v.Tok != token.ASSIGN {
 			x.fail(v.Pos(), "assignment operator %s", v.Tok)
 		}
@@ -791,9 +958,44 @@ func (f *ft) stmts(list []ast.Stmt, en *env, ind int) string {
 			x.fail(v.Pos(), "parallel assignment")
 		}
 		rhs := v.Rhs[0]
-		// call of a translated function
-		if callee, c := f.calleeOf(rhs); callee != nil {
+		// call of a translated function (with an error result, or with several results)
+		if callee, c := f.calleeOf(rhs); callee != nil && (callee.hasErr || len(callee.results) > 1) {
 			return f.callStmt(names, callee, c, en, ind, rest)
+		}
+		// hi, lo := bits.Mul64(a, b); sum, carry := bits.Add64(a, b, c); diff, borrow := bits.Sub64(a, b, c)
+		if c, ok := unparen(rhs).(*ast.CallExpr); ok && len(names) == 2 {
+			if sel, ok := c.Fun.(*ast.SelectorExpr); ok && x.isPkg(sel.X, bitsPath) {
+				fn := map[string][2]string{"Mul64": {"mul64Hi", "mul64Lo"}, "Add64": {"add64Sum", "add64Carry"}, "Sub64": {"sub64Diff", "sub64Borrow"}}[sel.Sel.Name]
+				nargs := map[string]int{"Mul64": 2, "Add64": 3, "Sub64": 3}[sel.Sel.Name]
+				if fn[0] == "" || len(c.Args) != nargs {
+					x.fail(c.Pos(), "bits function %s", x.text(c))
+				}
+				var gs []string
+				args := ""
+				for _, a := range c.Args {
+					r := f.expr(a, en, kU64)
+					if r.k != kU64 {
+						x.fail(a.Pos(), "argument %s of %s", x.text(a), sel.Sel.Name)
+					}
+					gs = append(gs, r.guards...)
+					args += " " + r.t
+				}
+				out := guardLines(gs, ind)
+				for i := 0; i < 2; i++ {
+					if names[i] != "_" {
+						if _, isErr := en.errs[names[i]]; isErr {
+							x.fail(v.Pos(), "assignment of a number to the error variable %s", names[i])
+						}
+						out += pad(ind) + "let " + leanIdent(names[i]) + " := (" + fn[i] + args + ")\n"
+					}
+				}
+				for i := 0; i < 2; i++ {
+					if names[i] != "_" {
+						en.vars[names[i]] = binding{lean: leanIdent(names[i]), k: kU64}
+					}
+				}
+				return out + f.stmts(rest, en, ind)
+			}
 		}
 		// f, _ := <decimal>.Float64()
 		if c, ok := unparen(rhs).(*ast.CallExpr); ok && len(names) == 2 {
@@ -857,6 +1059,21 @@ func identName(e ast.Expr) string {
 func (f *ft) noShadow(list []ast.Stmt, en *env) {
 	for _, s := range list {
 		ast.Inspect(s, func(n ast.Node) bool {
+			if d, ok := n.(*ast.DeclStmt); ok {
+				if gd, ok := d.Decl.(*ast.GenDecl); ok {
+					for _, sp := range gd.Specs {
+						if vs, ok := sp.(*ast.ValueSpec); ok {
+							for _, nm := range vs.Names {
+								_, v := en.vars[nm.Name]
+								_, e := en.errs[nm.Name]
+								if v || e {
+									f.x.fail(d.Pos(), "`var` in a nested block re-declares %s", nm.Name)
+								}
+							}
+						}
+					}
+				}
+			}
 			if a, ok := n.(*ast.AssignStmt); ok && a.Tok == token.DEFINE {
 				for _, l := range a.Lhs {
 					if id, ok := l.(*ast.Ident); ok && id.Name != "_" {
@@ -876,49 +1093,64 @@ func (f *ft) noShadow(list []ast.Stmt, en *env) {
 func (f *ft) callStmt(names []string, callee *fsig, c *ast.CallExpr, en *env, ind int, rest []ast.Stmt) string {
 	x := f.x
 	n := len(callee.results)
-	if !callee.hasErr {
-		x.fail(c.Pos(), "call %s of a helper without an error result (calls between translated functions are supported only as `v, err := f(..)` and `return f(..)` with an error result)", x.text(c))
+	want := n
+	if callee.hasErr {
+		want++
 	}
-	if len(names) != n+1 {
-		x.fail(c.Pos(), "%s returns %d values", callee.goName, n+1)
+	if len(names) != want {
+		x.fail(c.Pos(), "%s returns %d values", callee.goName, want)
 	}
 	gs, term := f.callTerm(callee, c, en)
 	out := guardLines(gs, ind)
-	out += pad(ind) + "(match " + term + " with\n"
-	out += pad(ind) + "| .panic => .panic\n"
+	// Res.elim (call) (fun value => ..) (fun error => ..) .panic — the three ways the call can end
+	out += pad(ind) + "Res.elim (" + term + ")\n"
 	f.fresh++
 	ev := fmt.Sprintf("e_%d", f.fresh)
-	// failed call: values are the zero value (the callee is translated under the same discipline), error is non-nil
-	enE := en.clone()
-	for i := 0; i < n; i++ {
-		if names[i] != "_" {
-			enE.vars[names[i]] = binding{lean: zeroLit(callee.results[i].k), k: callee.results[i].k, zero: true}
-			delete(enE.errs, names[i])
-		}
-	}
-	if names[n] != "_" {
-		enE.errs[names[n]] = errAbs{nonnil: true, lean: ev}
-		delete(enE.vars, names[n])
-	}
-	out += pad(ind) + "| .err " + ev + " =>\n" + f.stmts(rest, enE, ind+2)
+	pv := fmt.Sprintf("p_%d", f.fresh)
 	enO := en.clone()
-	var pats []string
+	okBinder := pv
+	lets := ""
+	if n == 1 {
+		okBinder = leanIdent(names[0])
+	}
 	for i := 0; i < n; i++ {
-		pats = append(pats, leanIdent(names[i]))
 		if names[i] != "_" {
+			if _, isErr := enO.errs[names[i]]; isErr {
+				x.fail(c.Pos(), "assignment of a value to the error variable %s", names[i])
+			}
 			enO.vars[names[i]] = binding{lean: leanIdent(names[i]), k: callee.results[i].k}
-			delete(enO.errs, names[i])
+			if n > 1 {
+				proj := pv + strings.Repeat(".2", i)
+				if i < n-1 {
+					proj += ".1"
+				}
+				lets += pad(ind+4) + "let " + leanIdent(names[i]) + " := " + proj + "\n"
+			}
 		}
 	}
-	if names[n] != "_" {
+	if callee.hasErr && names[n] != "_" {
 		enO.errs[names[n]] = errAbs{}
 		delete(enO.vars, names[n])
 	}
-	pat := pats[0]
-	if n > 1 {
-		pat = "(" + strings.Join(pats, ", ") + ")"
+	out += pad(ind+2) + "(fun " + okBinder + " =>\n" + lets + closeParen(f.stmts(rest, enO, ind+4))
+	if callee.hasErr {
+		// failed call: values are the zero value (the callee is translated under the same discipline), error non-nil
+		enE := en.clone()
+		for i := 0; i < n; i++ {
+			if names[i] != "_" {
+				enE.vars[names[i]] = binding{lean: zeroLit(callee.results[i].k), k: callee.results[i].k, zero: true}
+				delete(enE.errs, names[i])
+			}
+		}
+		if names[n] != "_" {
+			enE.errs[names[n]] = errAbs{nonnil: true, lean: ev}
+			delete(enE.vars, names[n])
+		}
+		out += pad(ind+2) + "(fun " + ev + " =>\n" + closeParen(f.stmts(rest, enE, ind+4))
+	} else {
+		out += pad(ind+2) + "(fun " + ev + " => .err " + ev + ")\n" // a function without error result never takes this arm
 	}
-	out += pad(ind) + "| .ok " + pat + " =>\n" + closeParen(f.stmts(rest, enO, ind+2))
+	out += pad(ind+2) + ".panic\n"
 	return out
 }
 
@@ -1087,7 +1319,7 @@ func (x *xl) translate(s *fsig) {
 	}
 	ast.Inspect(s.decl.Body, func(n ast.Node) bool {
 		switch n.(type) {
-		case *ast.ForStmt, *ast.RangeStmt, *ast.GoStmt, *ast.DeferStmt, *ast.SwitchStmt, *ast.TypeSwitchStmt, *ast.SelectStmt, *ast.FuncLit, *ast.LabeledStmt, *ast.BranchStmt:
+		case *ast.ForStmt, *ast.RangeStmt, *ast.GoStmt, *ast.DeferStmt, *ast.TypeSwitchStmt, *ast.SelectStmt, *ast.FuncLit, *ast.LabeledStmt:
 			x.fail(n.Pos(), "%T", n)
 		}
 		return true
@@ -1210,6 +1442,9 @@ var sharedFset = token.NewFileSet()
 var sharedImporter = importer.ForCompiler(sharedFset, "source", nil)
 
 // translateSource translates one Go file (and extracts the codec shape of codecPath unless it is empty)
+// lastFailed: the functions of the last translation that are outside the subset (name -> reason)
+var lastFailed map[string]string
+
 func translateSource(path, codecPath string) (text string, nfuncs, nerrs int, err error) {
 	defer func() {
 		if r := recover(); r != nil {
@@ -1225,7 +1460,7 @@ func translateSource(path, codecPath string) (text string, nfuncs, nerrs int, er
 		return "", 0, 0, rerr
 	}
 	x := &xl{fset: sharedFset, src: string(srcB), funcs: map[string]*fsig{}, errMsgs: map[string]string{}, errSet: map[string]bool{},
-		globals: map[string]kind{}, globalV: map[string]string{}, typeKind: map[string]kind{}, skipped: map[string]string{}}
+		globals: map[string]kind{}, globalV: map[string]string{}, typeKind: map[string]kind{}, skipped: map[string]string{}, failed: map[string]string{}}
 	file, perr := parser.ParseFile(x.fset, path, srcB, parser.ParseComments)
 	if perr != nil {
 		return "", 0, 0, perr
@@ -1292,9 +1527,20 @@ func translateSource(path, codecPath string) (text string, nfuncs, nerrs int, er
 				initDecl = v
 				continue
 			}
-			s := x.signature(v)
-			x.funcs[s.goName] = s
-			x.order = append(x.order, s.goName)
+			func() {
+				defer func() {
+					if r := recover(); r != nil {
+						xe, ok := r.(xlateError)
+						if !ok {
+							panic(r)
+						}
+						x.failed[v.Name.Name] = xe.msg // no hook can be emitted: the signature itself is outside the subset
+					}
+				}()
+				s := x.signature(v)
+				x.funcs[s.goName] = s
+				x.order = append(x.order, s.goName)
+			}()
 		}
 	}
 	// init(): one assignment per package variable
@@ -1327,11 +1573,43 @@ func translateSource(path, codecPath string) (text string, nfuncs, nerrs int, er
 			x.fail(file.Pos(), "package variable %s is never initialised in init()", n)
 		}
 	}
+	// every function is translated on its own: one that is outside the subset is recorded in `untranslated` (and
+	// reported on stderr as WARNING) instead of aborting the file, so the other definitions, the model driver and
+	// the fallback comparison against the hand-written specification remain available
 	for _, n := range x.order {
-		x.translate(x.funcs[n])
+		func() {
+			defer func() {
+				if r := recover(); r != nil {
+					xe, ok := r.(xlateError)
+					if !ok {
+						panic(r)
+					}
+					x.failed[n] = xe.msg
+				}
+			}()
+			x.translate(x.funcs[n])
+		}()
+	}
+	for changed := true; changed; { // a caller of an untranslated function is untranslated as well
+		changed = false
+		for _, n := range x.order {
+			if _, bad := x.failed[n]; bad {
+				continue
+			}
+			for d := range x.funcs[n].deps {
+				if _, bad := x.failed[d]; bad {
+					x.failed[n] = fmt.Sprintf("%s: calls %s, which is not translated", x.fset.Position(x.funcs[n].decl.Pos()), d)
+					changed = true
+					break
+				}
+			}
+		}
 	}
 	// package variables may only be assigned in init()
 	for _, n := range x.order {
+		if _, bad := x.failed[n]; bad {
+			continue
+		}
 		ast.Inspect(x.funcs[n].decl.Body, func(nd ast.Node) bool {
 			if a, ok := nd.(*ast.AssignStmt); ok {
 				for _, l := range a.Lhs {
@@ -1394,8 +1672,98 @@ func translateSource(path, codecPath string) (text string, nfuncs, nerrs int, er
 		emitted = append(emitted, x.funcs[n].leanName)
 	}
 	for _, n := range x.order {
-		visit(n)
+		if _, bad := x.failed[n]; !bad {
+			visit(n)
+		}
 	}
+	// hooks for the model driver: `some (f args)` for a translated function, `none` for an untranslated one, so the
+	// driver builds either way and falls back to the hand-written specification
+	var exported []string
+	for _, n := range x.order {
+		s := x.funcs[n]
+		if ast.IsExported(s.decl.Name.Name) {
+			exported = append(exported, s.leanName)
+		}
+		fmt.Fprintf(&b, "def run_%s", s.leanName)
+		args := ""
+		for _, p := range s.params {
+			fmt.Fprintf(&b, " (%s : %s)", leanIdent(p.name), p.leanType)
+			args += " " + leanIdent(p.name)
+		}
+		var rts []string
+		for _, r := range s.results {
+			rts = append(rts, r.leanType)
+		}
+		rt := rts[0]
+		if len(rts) > 1 {
+			rt = "(" + strings.Join(rts, " × ") + ")"
+		}
+		if _, bad := x.failed[n]; bad {
+			// keep the arity the driver expects: one extra argument per decimal.NewFromFloat call in the body
+			k := 0
+			ast.Inspect(s.decl.Body, func(nd ast.Node) bool {
+				if c, ok := nd.(*ast.CallExpr); ok {
+					if sel, ok := c.Fun.(*ast.SelectorExpr); ok && sel.Sel.Name == "NewFromFloat" && x.isPkg(sel.X, decimalPath) {
+						k++
+						fmt.Fprintf(&b, " (nff%d : Dec)", k)
+					}
+				}
+				return true
+			})
+			fmt.Fprintf(&b, " : Option (Res ErrKind %s) := none\n", rt)
+		} else if len(s.oracle) > 0 {
+			for _, p := range s.oracle {
+				fmt.Fprintf(&b, " (%s : %s)", p.name, p.leanType)
+				args += " " + p.name
+			}
+			fmt.Fprintf(&b, " : Option (Res ErrKind %s) := some (%s%s)\n", rt, s.leanName, args)
+		} else {
+			fmt.Fprintf(&b, " : Option (Res ErrKind %s) := some (%s%s)\n", rt, s.leanName, args)
+		}
+	}
+	// the bridge tactics unfold unexported helpers and package variables without knowing their names
+	{
+		var hs []string
+		for _, g := range x.gorder {
+			hs = append(hs, leanIdent(g))
+		}
+		for _, n := range x.order {
+			if _, bad := x.failed[n]; !bad && !ast.IsExported(x.funcs[n].decl.Name.Name) {
+				hs = append(hs, x.funcs[n].leanName)
+			}
+		}
+		fmt.Fprintf(&b, "\n/-- unfolds the unexported helper functions and package variables of currency.go -/\nmacro \"go_unfold_helpers\" : tactic => `(tactic| try simp only [%s])\n", strings.Join(append(hs, "Res.andThen"), ", "))
+	}
+	b.WriteString("\n/-- functions that could NOT be translated (name, reason); pinned to `[]` by `Props/C18.all_translated` -/\ndef untranslated : List (String × String) := [")
+	{
+		first := true
+		var bad []string
+		for n := range x.failed {
+			bad = append(bad, n)
+		}
+		sort.Strings(bad)
+		for _, n := range bad {
+			if !first {
+				b.WriteString(", ")
+			}
+			first = false
+			nm := n
+			if s, ok := x.funcs[n]; ok {
+				nm = s.leanName
+			}
+			fmt.Fprintf(&b, "(%q, %q)", nm, x.failed[n])
+			fmt.Fprintf(os.Stderr, "WARNING: xlate: %s not translated: %s\n", n, x.failed[n])
+		}
+	}
+	b.WriteString("]\n\n/-- the exported functions of currency.go (pinned by `Props/C18.exported_functions`: a new exported function\n    needs a specification and a bridge theorem) -/\ndef exportedFunctions : List String := [")
+	sort.Strings(exported)
+	for i, n := range exported {
+		if i > 0 {
+			b.WriteString(", ")
+		}
+		fmt.Fprintf(&b, "%q", n)
+	}
+	b.WriteString("]\n\n")
 	var sk []string
 	for n := range x.skipped {
 		sk = append(sk, n)
@@ -1410,7 +1778,7 @@ func translateSource(path, codecPath string) (text string, nfuncs, nerrs int, er
 		b.WriteString(codecShape(codecPath))
 	}
 	sort.Strings(emitted)
-	b.WriteString("/-- every function of currency.go that was translated (pinned by `Props/C18.generated_functions`, so a new\n    function cannot appear without a theorem) -/\ndef generatedFunctions : List String := [")
+	b.WriteString("/-- every function of currency.go that was translated (exported ones and local helpers) -/\ndef generatedFunctions : List String := [")
 	for i, n := range emitted {
 		if i > 0 {
 			b.WriteString(", ")
@@ -1418,5 +1786,6 @@ func translateSource(path, codecPath string) (text string, nfuncs, nerrs int, er
 		fmt.Fprintf(&b, "%q", n)
 	}
 	b.WriteString("]\n\nend Verif.Gen.Currency\n")
+	lastFailed = x.failed
 	return b.String(), len(emitted), len(x.errNames), nil
 }
